@@ -79,7 +79,8 @@ def rnd_desc(rng: random.Random, i: int) -> dict[str, Any]:
             tl.append([round(te, 3), 'edit', rng.choice(['o0', 'o1']), {'spec': {'x': k}}])
         te += rng.choice([0.7, 1.0, 1.3])
     tl.sort(key=lambda x: x[0])
-    return {'seed': rng.randrange(1 << 30), 'handlers': handlers, 'timeline': tl, 'quiet': None, 'horizon': horizon + 100.0, 'latency': 0.001, 'peering': {'name': 'default'},
+    others = {'other-group': {'stranger': {'priority': 1000, 'lifetime': 86400, 'lastseen': '$now'}}} if rng.random() < 0.3 else {}
+    return {'seed': rng.randrange(1 << 30), 'handlers': handlers, 'timeline': tl, 'quiet': None, 'horizon': horizon + 100.0, 'latency': 0.001, 'peering': {'name': 'default', 'others': others},
             'settings': {'queueing__idle_timeout': 1.0, 'persistence__consistency_timeout': 0.5}, 'end': 'stop', 'exit_wait': 60.0, 'ops': ops, 't_final': horizon, 'post_yields': rng.choice([0, 0, 0, 1, 2, 3, 5, 8])}
 
 
@@ -172,7 +173,9 @@ def run_case(case: dict[str, Any]) -> dict[str, Any]:
                 st = to
         return st
 
-    feeds = {n: operator_feed(w, n, 'clusterkopfpeerings') for n in ops}
+    # (only the group's own peering object counts: records in peering objects of another name are none of its business)
+    own_name = (desc.get('peering') or {}).get('name', 'default')
+    feeds = {n: [e for e in operator_feed(w, n, 'clusterkopfpeerings') if (e['body'].get('metadata') or {}).get('name') == own_name] for n in ops}
     for n in ops:
         cov['pauses_by_peer'] += sum(1 for tt, to in toggles[n] if to)
         cov['resumes'] += sum(1 for tt, to in toggles[n][1:] if not to)
